@@ -75,7 +75,10 @@ pack (pixman_format_code_t f, uint32_t argb, uint32_t junk)
     uint32_t v, used = 0;
     shifts (f, &as, &rs, &gs, &bs);
     v = 0;
-#define PUT(bits, sh, val8) if (bits) { v |= (uint32_t)((val8) >> (8 - (bits))) << (sh); used |= (((1u << (bits)) - 1) << (sh)); }
+    /* channels deeper than 8 bits are widened by replication */
+#define PUT(bits, sh, val8) if (bits) { uint32_t q_ = (bits) <= 8 ? (uint32_t)(val8) >> (8 - (bits)) \
+	: (((uint32_t)(val8) << ((bits) - 8)) | ((uint32_t)(val8) >> (16 - (bits)))); \
+	v |= q_ << (sh); used |= (((1u << (bits)) - 1) << (sh)); }
     PUT (a, as, (argb >> 24) & 0xff);
     PUT (r, rs, (argb >> 16) & 0xff);
     PUT (g, gs, (argb >> 8) & 0xff);
@@ -217,19 +220,23 @@ main (int argc, char **argv)
 	vt_int ("sx", sx); vt_int ("sy", sy); vt_int ("dx", dx); vt_int ("dy", dy); vt_int ("w", w); vt_int ("h", h);
 	vt_end ();
 
-	if (skind == 1 || skind == 5)
+	pixman_color_t fillcol;
+	int use_fill = (skind == 6 || skind == 7);
+	if (skind == 1 || skind == 5 || use_fill)
 	{
 	    /* 1: solid colour: the constant content colour, alpha 1
-	     * 5: a solid whose 16-bit alpha is NOT 0xffff (almost opaque ... translucent): never opaque */
+	     * 5: a solid whose 16-bit alpha is NOT 0xffff (almost opaque ... translucent): never opaque
+	     * 6, 7: the same two colours drawn by pixman_image_fill_boxes instead of compositing a solid image */
 	    static const uint16_t almost[] = { 0xfffe, 0xff80, 0xff00, 0xfeff, 0x8000, 0x00ff };
 	    vrng_t rng; uint32_t c; pixman_color_t col;
 	    vrng_seed (&rng, seed);
 	    c = content_pixel (&rng, quant, 0);
-	    col.alpha = skind == 1 ? 0xffff : almost[seed % 6];
+	    col.alpha = (skind == 1 || skind == 6) ? 0xffff : almost[seed % 6];
 	    col.red = ((c >> 16) & 0xff) * 0x101; col.green = ((c >> 8) & 0xff) * 0x101; col.blue = (c & 0xff) * 0x101;
 	    if (col.red > col.alpha) col.red = col.alpha;
 	    if (col.green > col.alpha) col.green = col.alpha;
 	    if (col.blue > col.alpha) col.blue = col.alpha;
+	    fillcol = col;
 	    src = pixman_image_create_solid_fill (&col);
 	}
 	else
@@ -293,7 +300,14 @@ main (int argc, char **argv)
 	make_image (&d, dfmt, dw, dh, seed ^ 0xd57, quant, 0, 0);
 	if (drep)
 	    pixman_image_set_repeat (d.img, PIXMAN_REPEAT_NORMAL);
-	pixman_image_composite32 ((pixman_op_t)op, src, mask, d.img, sx, sy, 0, 0, dx, dy, w, h);
+	if (use_fill)
+	{
+	    pixman_box32_t bx;
+	    bx.x1 = dx; bx.y1 = dy; bx.x2 = dx + w; bx.y2 = dy + h;
+	    pixman_image_fill_boxes ((pixman_op_t)op, d.img, &fillcol, 1, &bx);
+	}
+	else
+	    pixman_image_composite32 ((pixman_op_t)op, src, mask, d.img, sx, sy, 0, 0, dx, dy, w, h);
 	vt_begin ("Res");
 	vt_int ("pair", pair); vt_int ("variant", variant); vt_int ("cmp", cmp);
 	log_pixels (&d);
